@@ -45,7 +45,7 @@ func betweenValues() []TV {
 	}
 }
 
-const c17Rule = "every value shape of the universe (all scalar kinds, typed slices incl. empty and typed-nil, []interface{} mixes with nil / nested / bool elements, arrays, maps, pointers, channels, funcs, structs, complex, untyped nil) x {common, number, string-hash, number-range} x {ParseValue, ParseAssign}; a zoo of numeric/decimal/malformed strings, extreme integers and floats; range descriptions (well formed, malformed, step<=0 under a 2 s / 600 MB guard in a child process); ParseIntergers/ParseIntegerNumber/NilInterface/ParseAcMatchDict/BuildAcMatchContent on all shapes; ParseRange for GT/LT/Between/unknown operator on all shapes and on between pairs of every typing; end-to-end: every accepted value indexed on a field using that parser/container and queried with the values it denotes. Non-trivial = the value is accepted (ids/values produced); distinct = distinct input"
+const c17Rule = "every value shape of the universe (all scalar kinds, typed slices incl. empty and typed-nil, []interface{} mixes with nil / nested / bool elements, arrays, maps, pointers, channels, funcs, structs, complex, untyped nil) x {common, number, string-hash, number-range} x {ParseValue, ParseAssign}; a zoo of numeric/decimal/malformed strings, extreme integers and floats; range descriptions (well formed, malformed, step<=0 under a 2 s / 600 MB guard in a child process); ParseIntergers/ParseIntegerNumber/NilInterface/ParseAcMatchDict/BuildAcMatchContent on all shapes; ParseRange for GT/LT/Between/unknown operator on all shapes and on between pairs of every typing; end-to-end: every accepted value indexed on a field using that parser/container and queried with the values it denotes. RangeIdx histories over configured domains [RangeMin,RangeMax) with ranges at the domain's edges; Non-trivial = the value is accepted (ids/values produced); distinct = distinct input"
 
 // denseAllocatorCases: the common parser with the library's dense id allocator (set through the exported field): the
 // first text a parser ever sees gets id 0 -- accepted at indexing time, it must be matched at query time in every
@@ -68,7 +68,7 @@ func denseAllocatorCases(add func(in interface{})) {
 func init() {
 	props["C17"] = &propDef{
 		header:    "From BE Require Import Corr.CheckC17.",
-		headers:   map[string]string{"P": "From BE Require Import Corr.CheckParse.", "E": "From BE Require Import Corr.CheckE2E."},
+		headers:   map[string]string{"P": "From BE Require Import Corr.CheckParse.", "E": "From BE Require Import Corr.CheckE2E.", "H": "From BE Require Import Corr.CheckRange."},
 		rule:      c17Rule,
 		shardSize: 400,
 		gen: func(tier string, r *Rand, add func(in interface{})) {
@@ -100,6 +100,7 @@ func init() {
 			}
 			denseAllocatorCases(add)
 			rangeSplitCases(add) // kept intervals split by later ones: every accepted range stays matched by what it denotes
+			rangeDomainEdgeHists(add) // a configured domain [RangeMin, RangeMax): ranges at its edges index what they denote inside it, nothing else
 			// end to end: accepted => matchable.  One document per value; queries with candidate values.
 			cands := []int64{0, 1, 2, 3, 5, 7, 8, 9, 10, -3, 4, 127, 255, 1000, 2000, 64, 100, -15, -17, 11, 1500, 250, 15}
 			mkQueries := func(f int) []eQuery {
@@ -182,11 +183,15 @@ func init() {
 		},
 		exec: func(raw json.RawMessage) (execResult, error) {
 			var probe struct {
-				K string `json:"k"`
+				K    string `json:"k"`
+				Hist bool   `json:"hist"`
 			}
 			json.Unmarshal(raw, &probe)
 			if probe.K != "" {
 				return execParse(raw)
+			}
+			if probe.Hist {
+				return execRangeHist(raw)
 			}
 			res, err := execE2E(raw)
 			res.Family = "E"
